@@ -297,6 +297,36 @@ class ArmSummarizer:
                             errs |= e2
         return writes, calls, errs
 
+    def field_reads(self, fn, blocks, receiver=1):
+        """field paths (<= 2 levels) of the receiver that the blocks read (copy, borrow, pass to a call)"""
+        from .facts import rv_operands
+        reads = set()
+
+        def note(pl):
+            if len(pl) < 2:
+                return
+            base, names = self.root_of(fn, pl)
+            if base == receiver and names:
+                reads.add('.'.join(names[:2]))
+        for b in blocks:
+            stmts, t = fn.blocks[b]
+            for st in stmts:
+                if st[0] != 'a':
+                    continue
+                rv = st[2]
+                if rv[0] in ('ref', 'ptr', 'cfd', 'discr'):
+                    note(rv[1])
+                for o in rv_operands(rv):
+                    if o[0] in ('c', 'm'):
+                        note(o[1])
+            if t['k'] == 'call':
+                for a in t['a']:
+                    if a[0] in ('c', 'm'):
+                        note(a[1])
+            if t['k'] == 'switch' and t['d'][0] in ('c', 'm'):
+                note(t['d'][1])
+        return reads
+
     def arms(self, fn, enum_path, which=0, receiver=1):
         """variant name -> summary dict; variants sharing an arm are reported with the same summary"""
         g = self.g
